@@ -30,7 +30,14 @@ func getterOn(s *an.State, v ssa.Value, pkgRel, recv, name string) bool {
 // lenNonZero builds the requirement "len(<value satisfying pred>) != 0 is known".
 func lenNonZero(name string, pred func(s *an.State, v ssa.Value) bool) an.Req {
 	return an.FactReq(name, func(s *an.State, x, y ssa.Value, r an.Rel) bool {
-		if !an.IsIntConst(y, 0) || r&an.EQ != 0 {
+		if r&an.EQ != 0 {
+			return false
+		}
+		// the other spelling: str != ""
+		if an.IsStrConst(y, "") && pred(s, x) {
+			return true
+		}
+		if !an.IsIntConst(y, 0) {
 			return false
 		}
 		return an.LenOf(s, x, func(a ssa.Value) bool { return pred(s, a) })
